@@ -154,10 +154,22 @@ def extract():
             stmts[fname] = all_stmts(fn)
         if stmt not in stmts[fname]:
             missing.append((fname, stmt))
+    steps_by = "fingerprint"
+    if any(f.startswith("cbca_step_") for f, _ in missing):
+        # The textual fingerprint does not recognise a statement of cbca_step_1..4 (renamed locals, commuted operands,
+        # swapped branches, ...).  These four functions are TRANSLATED as a whole (translator/pyscan.py ->
+        # Generated/KernelsCbcaSteps.lean) and proved equal to the hand model's step1..step4 / sum2 / sum4
+        # (Properties/C11KernelsSteps.lean: cbcaStep1..4_generated_eq): `lake build` decides whether the rewritten text
+        # still means the same.  Outside the translator's subset: refused (Unsupported).
+        from . import gen_kernels_cbca_steps
+
+        gen_kernels_cbca_steps.kernels()
+        missing = [(f, s) for f, s in missing if not f.startswith("cbca_step_")]
+        steps_by = "T14 (checked by cbcaStep1..4_generated_eq)"
     if missing:
         raise Unsupported("cbca.py: statements the model was written against are no longer in the source: "
                           + "; ".join(f"{f}: `{s.splitlines()[0]}…`" for f, s in missing[:4]))
-    return {"min_rule": variants[0], "defaults": defaults, "recognised_statements": len(EXPECTED_STEPS) + 4 * 4, "arms_read_by": arms_by}
+    return {"min_rule": variants[0], "defaults": defaults, "recognised_statements": len(EXPECTED_STEPS) + 4 * 4, "arms_read_by": arms_by, "steps_read_by": steps_by}
 
 
 def render(ext) -> str:
